@@ -495,4 +495,40 @@ theorem compile_safe (htab : tableOk = true) (sh : Shape) (hd : cleanTail sh.det
       rw [compileAux_mb_id _ (fun c mb' => expand_mb_local sh ctx _ c mb' hst') t.length t mb (Nat.le_refl _)]
       exact hmb
 
+/-- With a local (non-static) `mb` nothing survives an invocation: every compilation yields safe text and hands the
+buffer back unchanged, for every template (no condition on the nested templates). -/
+theorem compile_safe_local (htab : tableOk = true) (hst : Gen.ErrorMacros.staticMb = false) (sh : Shape) :
+    ∀ (fuel : Nat) (ctx : Ctx) (t : Bytes) (mb : Pieces),
+      AllSafe (compile fuel sh ctx t mb).1 ∧ (compile fuel sh ctx t mb).2 = mb := by
+  intro fuel
+  induction fuel with
+  | zero => intro ctx t mb; exact ⟨by simp only [compile]; exact allSafe_nil, by simp only [compile]⟩
+  | succ fuel ih =>
+    intro ctx t mb
+    have hrec : RecSafe (fun k mb' =>
+        match classOf k with
+        | .recDetail => compile fuel sh { deny := false, allowRec := false, inSig := ctx.inSig } sh.detailTmpl mb'
+        | .recSignature => compile fuel sh { deny := false, allowRec := true, inSig := true } sh.sigTmpl mb'
+        | _ => ([], mb')) := by
+      intro k mb' hmb'
+      simp only
+      split
+      · exact ⟨(ih _ _ _).1, by rw [(ih _ _ _).2]; exact hmb'⟩
+      · exact ⟨(ih _ _ _).1, by rw [(ih _ _ _).2]; exact hmb'⟩
+      · exact ⟨allSafe_nil, hmb'⟩
+    have hout : RecOutSafe (fun k mb' =>
+        match classOf k with
+        | .recDetail => compile fuel sh { deny := false, allowRec := false, inSig := ctx.inSig } sh.detailTmpl mb'
+        | .recSignature => compile fuel sh { deny := false, allowRec := true, inSig := true } sh.sigTmpl mb'
+        | _ => ([], mb')) := by
+      intro k mb'
+      simp only
+      split
+      · exact (ih _ _ _).1
+      · exact (ih _ _ _).1
+      · exact allSafe_nil
+    simp only [compile]
+    exact ⟨compileAux_safe _ (fun c mb' => expand_safe htab sh ctx _ hrec hout c mb') t.length t mb (Nat.le_refl _),
+           compileAux_mb_id _ (fun c mb' => expand_mb_local sh ctx _ c mb' hst) t.length t mb (Nat.le_refl _)⟩
+
 end SquidModel.ErrPage
